@@ -43,3 +43,20 @@ package udp
 //@ func (*endpoint).prepareForWrite props C06 C11
 //@   trusted
 //@   modifies everything()
+
+// Read returns the datagram at the head of the receive queue - all of its bytes, with the
+// sender recorded on arrival - and unlinks it, so that it is returned at most once; the
+// buffer accounting shrinks by exactly its size. With an empty queue nothing changes.
+//@ func (*endpoint).Read props C11
+//@   requires e != nil && e.stack != nil
+//@   requires implies(e.rcvList.head != nil, e.rcvList.head.data.size == vsum(e.rcvList.head.data.views) && e.rcvList.head.data.size <= 1 << 40 && e.rcvList.head.data.size >= 0)
+//@   requires -(1 << 40) <= e.rcvBufSize && e.rcvBufSize <= 1 << 40
+//@   requires implies(e.rcvIcmp != icmpNormal, e.rcvIcmpMsg != nil)
+//@   requires implies(e.rcvList.head != nil, e.rcvList.head.udpPacketEntry.prev == nil)
+//@   ensures implies(old(e.rcvList.head) == nil, result3 != nil && len(result1) == 0 && e.rcvList.head == nil && e.rcvBufSize == old(e.rcvBufSize))
+//@   ensures implies(old(e.rcvList.head) != nil, result3 == nil)
+//@   ensures implies(old(e.rcvList.head) != nil, len(result1) == old(e.rcvList.head.data.size))
+//@   ensures implies(old(e.rcvList.head) != nil, e.rcvList.head == old(e.rcvList.head.udpPacketEntry.next))
+//@   ensures implies(old(e.rcvList.head) != nil, e.rcvBufSize == old(e.rcvBufSize) - old(e.rcvList.head.data.size))
+//@   ensures implies(old(e.rcvList.head) != nil && addr != nil, addr.Port == old(e.rcvList.head.senderAddress.Port) && addr.Addr == old(e.rcvList.head.senderAddress.Addr) && addr.NIC == old(e.rcvList.head.senderAddress.NIC))
+//@   modifies e.rcvList.head, e.rcvList.tail, e.rcvBufSize, *addr, structfamily(udpPacket)
